@@ -15,7 +15,7 @@ def hash_groups():
                        sources=src, defines=d, what=what, **kw))
     g('hash.div', ['C17'], 'h_div', 'cstl_hash_div', what='cstl_hash_div(k,m) < m for all k, all m >= 1')
     g('hash.mul', ['C17'], 'h_mul', 'cstl_hash_mul', what='cstl_hash_mul(k,m) < m for all k, all m >= 1 (IEEE binary32)',
-      solver='cvc5', timeout=1500, cover_solver=True, refuter='kissat')
+      solver='kissat', timeout=1500)   # (cvc5: 3 min; minisat2: no result in 900 s; kissat: 14 s, and 13 min to refute seeded change C17-1)
     g('hash.load', ['C19'], 'h_load', 'cstl_hash_load', what='cstl_hash_load reports size / effective bucket count', solver='cvc5', timeout=300, cover_solver=True)
     g('hash.get_bucket_raw', ['C17', 'C03'], 'h_get_bucket_raw', '__cstl_hash_get_bucket',
       what='bucket selection with an arbitrary caller hash: result inside [0,count) of the array or abort',
@@ -34,7 +34,7 @@ def hash_groups():
     g('hash.get_bucket', ['C19', 'C03', 'C17'], 'h_get_bucket', 'cstl_hash_get_bucket',
       replace=['__cstl_hash_get_bucket', 'cstl_clean_bucket', '__cstl_hash_rehash'],
       what='keyed access: <= 3 dirty buckets relocated, sweep advances or completes, one hash consultation when idle, bucket in range',
-      defines=['-DVF_BYTE_STAMPS'], shards=6, timeout=1500)
+      defines=['-DVF_BYTE_STAMPS'], shards=6, timeout=1500, solver='kissat')
     g('hash.set_capacity', ['C16', 'C03'], 'h_set_capacity', '__cstl_hash_set_capacity',
       what='bucket array reallocation lands completely or changes nothing (allocation may fail)')
     g('hash.set_capacity_init', ['C16'], 'h_set_capacity', '__cstl_hash_set_capacity',
@@ -183,7 +183,7 @@ def array_groups():
     g('unslice.inplace', ['C14'], 'h_unslice', 'cstl_array_unslice', 'unslice in place', defines=['-DVF_A_INPLACE'])
     g('alloc', ['C14', 'C16'], 'h_alloc', 'cstl_array_alloc',
       're-allocating an object that is a view (any offset, any owner counts): old owner count released, fresh view from offset 0 or empty; every allocation-failure subset; unrepresentable nm*sz',
-      timeout=800)
+      timeout=800, solver='kissat')
     g('alloc.empty', ['C14', 'C16'], 'h_alloc', 'cstl_array_alloc', 'alloc on an empty object', defines=['-DVF_A_EMPTY'])
     g('release', ['C14'], 'h_release', 'cstl_array_release', 'release of an internal buffer: NULL, nothing changes')
     g('release.external', ['C14'], 'h_release', 'cstl_array_release', 'release of an external buffer: handed back only to the sole user', defines=['-DVF_A_EXTERNAL'], timeout=800)
@@ -264,9 +264,10 @@ def rawarray_groups():
             G.append(Group('rawarray.%s.e%d' % (name, esz), ['C11'], 'P', S, harness, enforce=enforce, sources=src, defines=d + list(defines_extra),
                            what=what + ' [element size %d]' % esz, **kw))
         g('find', 'h_find', 'cstl_raw_array_find', 'linear find returns the first index comparing equal, -1 iff none; every count')
-        if esz == 1:
-            # (the 4-byte instance of this loop invariant does not finish in 600 s; the index arithmetic is the same)
-            g('reverse', 'h_reverse', 'cstl_raw_array_reverse', 'reverse exactly mirrors the order for every count; writes only the array and the scratch element')
+        if esz in (1, 4):
+            # (the 4-byte instance takes 5 minutes with kissat and did not finish with minisat: thorough tier)
+            g('reverse', 'h_reverse', 'cstl_raw_array_reverse', 'reverse exactly mirrors the order for every count; writes only the array and the scratch element',
+              tier=('quick' if esz == 1 else 'thorough'), timeout=1200, solver=('sat' if esz == 1 else 'kissat'))
         g('search_arith', 'h_search_arith', 'cstl_raw_array_search', 'binary search: for arbitrary comparison outcomes all probes stay inside the array, indices never overflow, result in [-1,count)')
         g('search_func', 'h_search_func', 'cstl_raw_array_search',
           'binary search on a sorted array, every count: sortedness seen from the probe as zone boundaries lo <= hi (greater / equal / smaller); returns an index inside [lo,hi) iff lo < hi, else -1',
